@@ -36,6 +36,7 @@ import (
 	"errors"
 	"fmt"
 	"math/rand"
+	"os"
 	"runtime"
 	"sort"
 	"strings"
@@ -896,6 +897,10 @@ func TestC13(t *testing.T) {
 	r.Assume("e2e layer: a message counts as 'registered before the completion decision' only if its send returned before the PreLogin handler returned, before a consumer call that preceded the completion, or it was sent by a consumer that returned before the completion; everything else is the flagged class 'possibly after completion'")
 	r.Assume("e2e layer: the fake client and the fake Forge backend parse and build login plugin requests/responses from raw bytes themselves; Gate's packet codec for them is under observation")
 
+	if os.Getenv("VERIF_E2E_ONLY") != "" { // debugging aid, see runE2E
+		runE2E(r)
+		return
+	}
 	n := r.N(3000, 200000)
 	master := r.Rng("specs")
 	seeds := make([]int64, n)
